@@ -1243,7 +1243,13 @@ pub fn execute(sc: &NScenario, sh: &Shared) -> Value {
             run.do_call(li, 999, t, 0, Some(lt.exit_panic));
         }
         run.check_bystanders(&what);
-        if !run.viol.is_empty() {
+        // stop at the first violation that concerns the property being checked (see vsim)
+        let want = std::env::var("VERIF_WANT_PROP").ok();
+        let stop = run.viol.iter().any(|v| match &want {
+            Some(p) => v["props"].as_array().map(|a| a.iter().any(|x| x.as_str() == Some(p.as_str()))).unwrap_or(true),
+            None => true,
+        });
+        if stop {
             break;
         }
     }
